@@ -79,6 +79,18 @@ CHECKS = {
          "2-4 owners issue Lock/DualLock/Unlock/IsLocked/IsLockedTTL/IsLockedByOthers and releases of keys they do not hold over shared keys, with TTLs 1 s..10 min, simulated sleeps across expiry, shard capacities default/1/2/4 with unrelated entries and colliding unrelated locks; a lock table with simulated time is kept in lockstep and cross-checked after every call (two holders, lock lost before expiry, foreign unlock, IsLocked true for a non-holder).",
          "Trusted: simulator, lock-table model. In-memory lock service only: each L2 call is one atomic scheduler step (sub-call interleavings of the sharded map are not explored); the Redis adapter's locker is NOT covered (no Redis server/stub in this build) - stated limitation.",
          "7/C28"),
+ "C21": (EXPL, "deterministic simulation (single task): seeded registry call sequences over ids crafted to collide in block and slot, tiny hash moduli, full blocks and segment overflow; map model + raw segment-file walk",
+         "Seeded sequential programs of Add/Update/UpdateNoLocks/Remove/Get through fs.NewRegistry on the simulated disk over ids crafted to share blocks and slots (hash modulus 1-4 or 250, up to 150 ids so blocks fill and overflow into further segment files), with lookups through brand-new registry objects with empty caches; compared with a map model call by call and by a raw walk of the segment files at the end.",
+         "Trusted: map model, raw walker (public handle decoder + CRC), simulator. No concurrency dimension. The by-product C24 monitor mentioned in the design was not built.",
+         "7/C21"),
+ "C22": (ENUM, "deterministic simulation + crash-point enumeration around one registry block write with concurrent reader tasks; old-or-new oracle on lookups and raw block bytes",
+         "For sampled populated blocks every durable mutation of one handle update (backup write, block write, backup removal) is a crash point: before, after, and torn at every 512-byte boundary plus arbitrary lengths; 0-2 reader tasks look the block up from the segment file under 3 seeded schedules per variant. After restart every handle must read as its old or (the updated one) its new image, readers must never have seen anything else, and the block must verify.",
+         "Trusted: simulator. Abstraction: concurrent block reads/writes are atomic (4 KiB aligned I/O), tearing only happens together with the crash. Exhaustive per sampled block over the listed variants.",
+         "7/C22"),
+ "C23": (ENUM, "systematic corruption enumeration of a written registry block (bit flips on a stride, bursts, zeroed tails) x backup-file variants x operations, on the simulated disk",
+         "For sampled written blocks: single-bit flips over all slots and the checksum trailer, bursts, zeroed tails x {no backup, valid previous image, bad-checksum backup, empty backup} x {Get, Update, UpdateNoLocks, Remove} through a fresh registry: without a valid backup the operation must fail and leave the block bytes unchanged; with one, the restored image is served.",
+         "Trusted: simulator, CRC computation. This property has no schedule dimension; the simulator contributes the disk seam, cold restarts and the seeded sampling of blocks. All-zero blocks are valid by design and skipped.",
+         "7/C23"),
 }
 
 NOT_APPLICABLE = {
